@@ -44,6 +44,15 @@ CLAIMED = {
     "C16": ("DESIGN.md §2 C16",
             "Bounded symbolic model checking of the index arithmetic: the real dataset classes run on symbolic sizes/batch sizes/indices (16-bit bit-vectors with proved no-overflow obligations) with index-recording stand-ins; pairing/in-range/batch-size per path and coverage with the bounded forall expanded into one query; plus real loaders on symbolic data cells with every permutation forked; full-dataset aggregation of DataCondition.",
             "all sizes and batch sizes <=6 (quick)/<=10 (thorough); DataLoader(batch_size=None) modelled as for idx in range(len(ds)) in route A (route B iterates the real DataLoader)"),
+    "C01": ("DESIGN.md §2 C01",
+            "Bounded symbolic model checking: every sampling method of every catalogue shape (and the point samplers on top) is executed with symbolic shape parameters, parameter rows and random draws; accept/reject outcomes, grid sizes and loop iterations fork paths; on every path each returned row is proved (z3) to lie in the independently defined set (closure resp. boundary band) of its parameter row, and no feasible path may raise.",
+            "n<=2 (quick)/<=4 (thorough), k<=2; rejection loops unwound to the stated fork bounds (unwound paths are reported, not counted as success); a.s. termination not claimed; 2-D Boolean boundaries in the thorough tier only"),
+    "C02": ("DESIGN.md §2 C02",
+            "Bounded symbolic model checking: samplers and the sampler algebra run with symbolic parameter rows, filters and random draws (accept/reject forked); row counts are checked on every path and every parameter column of every returned row is proved (z3) equal to the input parameter row it must carry; products/concat/append are compared with recorded sub-samples.",
+            "shape parameters concrete (row counts and pairing do not depend on the geometry), n<=2/4, k<=2/3, algebra depth 1/2; 2-D Boolean combinations in the thorough tier only"),
+    "C07": ("DESIGN.md §2 C07",
+            "Bounded symbolic model checking: the real Solver hooks and the real torch.optim SGD/Adam/schedulers run on symbolic weights, parameters, adaptive weights and condition weights; after every step all learnable and optimizer-state tensors are proved (z3) equal to those of an independent reference loop on a twin; inductive-step cases start from an arbitrary optimizer state.",
+            "pl.Trainer replaced by a 25-line stub of Lightning's documented automatic-optimisation order (validated bit-identically against the real Trainer outside the check); optimizer hyper-parameters concrete; FCN hidden<=2, 2-4 conditions, <=3 steps + inductive step; LBFGS-style closure optimizers outside"),
 }
 
 NOT_APPLICABLE = {
